@@ -24,6 +24,7 @@ import (
 	"mosn.io/mosn/pkg/protocol/xprotocol"
 	"mosn.io/mosn/pkg/protocol/xprotocol/bolt"
 	httpstream "mosn.io/mosn/pkg/stream/http"
+	h2stream "mosn.io/mosn/pkg/stream/http2"
 	xstream "mosn.io/mosn/pkg/stream/xprotocol"
 	"mosn.io/mosn/pkg/types"
 	"mosn.io/mosn/pkg/upstream/cluster"
@@ -76,20 +77,24 @@ type upConn struct {
 	remote string
 	got    int64 // bytes received
 	eof    int32 // the peer (MOSN) closed / reset
+	h2     *h2pConn // kind h2p: the HTTP/2 side of this connection (h2p.go)
 }
 
 type upstream struct {
 	ln    net.Listener
 	mu    sync.Mutex
 	conns []*upConn
+	serve func(uc *upConn) // what the upstream does with an accepted connection (nil: swallow the bytes)
 }
 
-func newUpstream() *upstream {
+func newUpstream() *upstream { return newUpstreamWith(nil) }
+
+func newUpstreamWith(serve func(uc *upConn)) *upstream {
 	ln, err := net.Listen("tcp", "127.0.0.1:0")
 	if err != nil {
 		panic(err)
 	}
-	u := &upstream{ln: ln}
+	u := &upstream{ln: ln, serve: serve}
 	go func() {
 		for {
 			c, err := ln.Accept()
@@ -100,6 +105,10 @@ func newUpstream() *upstream {
 			u.mu.Lock()
 			u.conns = append(u.conns, uc)
 			u.mu.Unlock()
+			if u.serve != nil {
+				go u.serve(uc)
+				continue
+			}
 			go func() {
 				buf := make([]byte, 4096)
 				for {
@@ -224,6 +233,7 @@ func (m *mconn) OnEvent(e api.ConnectionEvent) {
 
 type streamRec struct {
 	conn     int
+	h2id     uint32 // kind h2p: the HTTP/2 stream id the upstream saw for this request
 	sender   types.StreamSender
 	mu       sync.Mutex
 	recv     int
@@ -303,7 +313,12 @@ var clusterSeq int64
 
 func newWorld(kind string, maxConn, maxReq uint32) *world {
 	register()
-	w := &world{kind: kind, maxConn: maxConn, maxReq: maxReq, up: newUpstream(), dead: deadAddr}
+	w := &world{kind: kind, maxConn: maxConn, maxReq: maxReq, dead: deadAddr}
+	if kind == "h2" {
+		w.up = newUpstreamWith(h2pServe)
+	} else {
+		w.up = newUpstream()
+	}
 	addr := w.up.ln.Addr().String()
 	name := fmt.Sprintf("c09-%d", atomic.AddInt64(&clusterSeq, 1))
 	cc := v2.Cluster{
@@ -330,6 +345,8 @@ func newWorld(kind string, maxConn, maxReq uint32) *world {
 	case "mx":
 		w.pool = xstream.NewConnPool(ctx, &mxCodec{}, w.host)
 		w.proto = (&bolt.XCodec{}).NewXProtocol(ctx)
+	case "h2":
+		w.pool = h2stream.NewConnPool(ctx, w.host)
 	default:
 		panic("kind")
 	}
